@@ -32,7 +32,10 @@ Record jfile := { j_given : gpath; j_lang : lang; j_raw : list nat; j_rel : list
 
 Definition dummy_sig : cmdsig := Build_cmdsig "" INone false [] t_none t_none t_none false.
 
-Definition judge (q : quirks) (cmd : string) (chain : list level) (proj_depth : nat) (cwd : list string)
+(* full = false: the six single-flag candidates and the ideal candidate are only evaluated for a case on which the implementation
+   differs from the specification or from the claimed vector (they are not looked at otherwise; the harness re-judges every case
+   with full = true as soon as one case disagrees with the claimed vector) *)
+Definition judge_gen (full : bool) (q : quirks) (cmd : string) (chain : list level) (proj_depth : nat) (cwd : list string)
            (root_pats cwd_pats : list string) (configured : option (list string)) (files : list jfile) : list bool :=
   let sg := match find_sig cmd with Some s => s | None => dummy_sig end in
   let e := {| e_root := find_root chain; e_cwd := cwd; e_root_pats := root_pats; e_cwd_pats := cwd_pats |} in
@@ -42,10 +45,17 @@ Definition judge (q : quirks) (cmd : string) (chain : list level) (proj_depth : 
   let xf := find (fun x => String.eqb (fst x) cmd) xfile_commands in   (* cross-file commands and their gate *)
   let spec := match xf with Some (_, gate) => xfile_spec gate root_pats sg configured ss | None => spec_result root_pats sg configured ss end in
   let run := fun c => match xf with Some (_, gate) => xfile_result_fast gate c e sg configured fs | None => run_result c e sg configured fs end in
+  let spec_ok := same impl spec in
+  let c0 := same impl (run q) in
   (match find_sig cmd with Some _ => true | None => false end && (find_root_len root_markers chain =? proj_depth))
-  :: same impl spec
+  :: spec_ok
   :: same (run ideal) spec
-  :: map (fun c => same impl (run c)) (candidates q).
+  :: c0
+  :: (if negb full && spec_ok && c0 then map (fun _ => true) (tl (candidates q))
+      else map (fun c => same impl (run c)) (tl (candidates q))).
+
+Definition judge := judge_gen true.
+Definition judge_lazy := judge_gen false.
 
 (* unit-level: root detection alone *)
 Definition judge_root (chain : list level) (impl_len : nat) : bool := find_root_len root_markers chain =? impl_len.
